@@ -33,10 +33,6 @@ structure Conf where
   maxReaders : Nat := 0
   regexp : Bool := false               -- Regexp != nil
   fallback : Bool := false             -- Fallback != nil
-  /-- code variant, not a configuration field: `true` = the tree under test tears the freshly created
-  stream down again when `SubStream.Initialize()` fails (proposed fix, notes/C18-fix-subinit.diff);
-  `false` = the stream is left behind (current upstream behaviour, finding `subinit-fail`). -/
-  subErrTeardown : Bool := false
 deriving DecidableEq, Repr
 
 /-- `conf.Path.validate` constraints that matter here. -/
@@ -293,9 +289,10 @@ def newSub (w : W) : W :=
     srcSub := some s.nextSub,
     aaCur := if s.conf.alwaysAvailable then some s.nextSub else s.aaCur }) w
 
-/-- error path of `subStream.Initialize()` in doAddPublisher / doSourceStaticSetReady -/
+/-- error path of `subStream.Initialize()` in doAddPublisher / doSourceStaticSetReady: the stream
+that `setAvailable` has just created is taken down again -/
 def subErrCleanup (w : W) : W :=
-  if w.s.conf.subErrTeardown && !w.s.conf.alwaysAvailable then setNotAvailable w else w
+  if w.s.conf.alwaysAvailable then w else setNotAvailable w
 
 /-- `if pa.source != nil { … Close(); executeRemovePublisher() }` (overridePublisher) -/
 def pubOverride (w : W) : W :=
@@ -608,20 +605,12 @@ def timerDur (c : Cfg) : Timer → Nat
   | .srcReady => c.startMs | .pubReady => c.startMs
   | .srcClose => c.closeMs | .pubClose => c.closeMs
 
-/-- the `reset` answer of the harness starts with `fix=0|1`: which code variant the tree under test is
-(probed by the harness on a scratch path); the model follows it (`Conf.subErrTeardown`). -/
-def withVariant (o : Op) (impl : String) : Op :=
-  match o with
-  | .reset c => .reset { c with conf := { c.conf with subErrTeardown := (words impl).head? == some "fix=1" } }
-  | o => o
-
 /-- model answer for one op line: new model state, the outputs, the canonical answer string -/
 def exec (m : M) (o : Op) : M × List Out × String :=
   match o with
   | .reset c =>
     let w := initW c.conf
-    ({ cfg := c, st := w.s, slept := 0 }, w.out,
-      (if c.conf.subErrTeardown then "fix=1 " else "fix=0 ") ++ fmtOuts w.out)
+    ({ cfg := c, st := w.s, slept := 0 }, w.out, fmtOuts w.out)
   | .ev e =>
     let (s', outs) := stepAuto m.cfg.auto m.st e
     let armed := outs.any fun o => match o with | .arm _ => true | _ => false
